@@ -42,5 +42,47 @@ theorem returns_bind_pure {P : β → Prop} (m : M α) (g : α → β) (h : ∀ 
 theorem returns_throw {P : α → Prop} (e : Exc) : Returns P (throw' e : M α) := by
   intro w a h; simp [throw'] at h
 
+theorem bind_error {m : M α} {f : α → M β} {w w' : World} {e : Exc} {ev : List Ev}
+    (h : m w = ⟨.error e, ev, w'⟩) : (m >>= f) w = ⟨.error e, ev, w'⟩ := by
+  rw [bind_apply, h]
+
+theorem bind_ok {m : M α} {f : α → M β} {w w' : World} {a : α} {ev : List Ev}
+    (h : m w = ⟨.ok a, ev, w'⟩) : (m >>= f) w = ⟨(f a w').val, ev ++ (f a w').evs, (f a w').w⟩ := by
+  rw [bind_apply, h]
+
+theorem returns_bind {P : β → Prop} (m : M α) (f : α → M β) (h : ∀ a, Returns P (f a)) :
+    Returns P (m >>= f) := by
+  intro w b hb
+  rw [bind_apply] at hb
+  split at hb
+  · rename_i a e1 w1 _
+    exact h a w1 b hb
+  · simp at hb
+
+/-- …knowing also that `m` did return `a` -/
+theorem returns_bind_of {P : β → Prop} (m : M α) (f : α → M β)
+    (h : ∀ a, (∃ w, (m w).val = .ok a) → Returns P (f a)) : Returns P (m >>= f) := by
+  intro w b hb
+  rw [bind_apply] at hb
+  split at hb
+  · rename_i a e1 w1 heq
+    exact h a ⟨w, by rw [heq]⟩ w1 b hb
+  · simp at hb
+
+theorem returns_tryCatchIf {P : α → Prop} (m : M α) (p : Exc → Bool) (h : Exc → M α)
+    (h1 : Returns P m) (h2 : ∀ e, Returns P (h e)) : Returns P (tryCatchIf m p h) := by
+  intro w a ha
+  unfold tryCatchIf at ha
+  split at ha
+  · rename_i e e1 w1 heq
+    split at ha
+    · exact h2 e w1 a ha
+    · simp at ha
+  · rename_i r hne
+    exact h1 w a ha
+
+theorem returns_mono {P Q : α → Prop} {m : M α} (h : Returns P m) (hpq : ∀ a, P a → Q a) : Returns Q m :=
+  fun w a ha => hpq a (h w a ha)
+
 end M
 end PowHsm
